@@ -456,13 +456,20 @@ def history_features(case, obs=None, upto=None):
     open_paths = [dict() for _ in range(n)]   # slot -> path the handle was opened with
     gone = [set() for _ in range(n)]          # paths at which a file was removed / renamed away / replaced
     gone_dirs = [set() for _ in range(n)]     # paths at which a directory was removed since the last crash
+    pend_ren = [[] for _ in range(n)]         # clean file renames not yet flushed by a sync_dir
+    half = [[] for _ in range(n)]             # cross-directory renames flushed on the destination side only
+    stale = [set() for _ in range(n)]         # old names whose durable mark was left behind by such a flush (survives crashes)
     for si, st in enumerate(case["steps"]):
         if upto is not None and si > upto:
             break
         name = st[0].split("@")[0]
-        if name in ("tick", "dump"):
+        if name == "tick":
             continue
         h = st[1]
+        if name == "dump":
+            if half[h]:
+                feats.add("RenameCrossDir")
+            continue
         fs = durs[h].fs
         hosts = [d.fs for d in durs]
         if name == "crash":
@@ -471,6 +478,8 @@ def history_features(case, obs=None, upto=None):
             gone[h].clear()
             gone_dirs[h].clear()
             open_paths[h].clear()
+            pend_ren[h] = []
+            half[h] = []
             continue
         if name == "open":
             flags = st[4].replace("k", "")
@@ -504,9 +513,54 @@ def history_features(case, obs=None, upto=None):
         if name == "unlink" and fs.kind(st[2]) == "file":
             feats.add("RemoveFile")
             gone[h].add(st[2])
+        gone_before = set(gone[h])
         if name == "rename" and fs.kind(st[2]) == "file":
             gone[h].add(st[2])
             gone[h].add(st[3])
+        # ---- file renames: what is a defect and what is not (see known_findings.txt) ----
+        dur = durs[h]
+        if half[h]:
+            # a cross-directory rename out of a directory whose entry for the file was not durable
+            # has been flushed by the destination's sync_dir only: until the next crash the old
+            # name is visible again
+            feats.add("RenameCrossDir")
+        if ((name == "open" and ("c" in st[4] or "n" in st[4]) and fs.kind(st[3]) is None and st[3] in stale[h])
+                or (name == "spit" and fs.kind(st[2]) is None and st[2] in stale[h])):
+            feats.add("RenameCrossDir")
+        touched = None                      # inode receiving a data operation in this step
+        if name in ("write_at", "write", "set_len") and fs.h(st[2]) is not None and fs.h(st[2])["w"]:
+            if name == "set_len" or (st[4] if name == "write_at" else st[3]):
+                touched = fs.h(st[2])["ino"]
+        if name == "open" and fs.kind(st[3]) == "file" and "t" in st[4] and "w" in st[4] and "n" not in st[4]:
+            try:
+                Posix.open_mode(st[4].replace("k", ""))
+                touched = fs.lookup(st[3])[1]
+            except Err:
+                pass
+        if name == "spit" and fs.kind(st[2]) == "file":
+            touched = fs.lookup(st[2])[1]
+        if touched is not None and any(r["ino"] == touched for r in pend_ren[h]):
+            feats.add("RenameFile")         # written while its rename is not yet flushed
+        if name in ("rmdir", "rmdir_all") and any(parent(r["t"]) == st[2] or is_prefix(st[2], r["t"]) for r in pend_ren[h]):
+            feats.add("RenameFile")         # the emptiness check does not see a file renamed into the directory
+        if name == "sync_dir" and fs.kind(st[2]) == "dir":
+            keep = []
+            for r in pend_ren[h]:
+                pf, pt = parent(r["f"]), parent(r["t"])
+                if st[2] != pf and st[2] != pt:
+                    keep.append(r)
+                elif pf == pt:
+                    pass                    # same directory: creation and rename are flushed together
+                elif st[2] == pf:
+                    feats.add("RenameCrossDir")   # source side first: the new name can never become durable
+                elif dur.dent.get(r["f"]) == r["ino"]:
+                    stale[h].add(r["f"])    # durable source entry, destination synced: fine, except that the old
+                                            # name keeps its durable mark (matters if a file is created there again)
+                elif not dur.persisted(r["ino"]):
+                    feats.add("RenameCrossDir")   # no inode on disk yet: the flushed rename moves nothing
+                else:
+                    half[h].append(r)
+            pend_ren[h] = keep
         if name == "rename":
             k = fs.kind(st[2])
             try:
@@ -514,12 +568,30 @@ def history_features(case, obs=None, upto=None):
                 kd = fs.kind(st[3])
             except Err:
                 kd = None
+            ok_rename = False
             if k == "file":
-                feats.add("RenameFile")
+                try:
+                    import copy
+                    copy.deepcopy(fs).rename(st[2], st[3])
+                    ok_rename = True
+                except Err:
+                    ok_rename = False
+            if k == "file":
+                feats.add("RenameFileAny")
+                ino = fs.lookup(st[2])[1]
                 if st[2] == st[3]:
                     feats.add("RenameSelf")
-                elif kd == "file":
-                    feats.add("RenameOverFile")
+                elif ok_rename:
+                    if kd == "file":
+                        feats.add("RenameOverFile")
+                    if (ino in dur.dirty or (kd == "file" and fs.lookup(st[3])[1] in dur.dirty)
+                            or any(r["ino"] == ino for r in pend_ren[h]) or st[3] in gone_before):
+                        feats.add("RenameFile")   # unsynced data (source, or the file it replaces), onto a name whose
+                                                  # file was removed since the last crash, or renamed again while the
+                                                  # previous rename is not yet flushed
+                    else:
+                        feats.add("CleanRename")
+                        pend_ren[h].append({"ino": ino, "f": st[2], "t": st[3]})
             elif k == "dir":
                 feats.add("RenameDir")
         if name in ("rmdir", "rmdir_all") and fs.kind(st[2]) == "dir":
@@ -584,9 +656,11 @@ def base_cfg(rng, nhosts=1):
 class Gen:
     """Builds a mostly-valid history while tracking the POSIX tree."""
 
-    def __init__(self, rng, level, nhosts=1, tokio=0.0, syncs=0.25, crash=0.0, setup_sync=None, stale=0.1):
+    def __init__(self, rng, level, nhosts=1, tokio=0.0, syncs=0.25, crash=0.0, setup_sync=None, stale=0.1,
+                 clean_rename=0.0):
         self.rng, self.level, self.n = rng, level, nhosts
         self.stale = stale
+        self.clean_rename = clean_rename
         self.opened = [dict() for _ in range(nhosts)]   # slot -> path
         self.tokio, self.syncs, self.crash = tokio, syncs, crash
         self.dur = [Durable() for _ in range(nhosts)]
@@ -733,6 +807,8 @@ class Gen:
                 self.emit(["slurp", h, p])
         elif lvl >= 2 and c < 0.58:
             self.emit(["unlink", h, self.pick_file(fs, rng.random() < 0.9)])
+        elif lvl >= 2 and c < 0.80 and self.clean_rename and rng.random() < self.clean_rename:
+            self.clean_rename_block(h)
         elif lvl >= 2 and c < 0.80:
             src = self.pick_file(fs, rng.random() < 0.92)
             dst = self.pick_file(fs, rng.random() < 0.4)
@@ -751,6 +827,67 @@ class Gen:
         else:
             self.emit(["stat", h, rng.choice(UNIVERSE)])
 
+    def clean_rename_block(self, h):
+        """rename of a file whose data is synced, onto a fresh name (often across directories,
+        often out of a directory that was never synced), followed by directory syncs / a crash"""
+        rng = self.rng
+        fs = self.hosts[h]
+        dur = self.dur[h]
+        files = [p for p in FILES if fs.kind(p) == "file"]
+        free = [p for p in FILES if fs.kind(p) is None and fs.kind(parent(p)) == "dir"]
+        if not free:
+            return
+        if not files or rng.random() < 0.4:
+            src = rng.choice(free)
+            free.remove(src)
+            if not free:
+                return
+            self.emit(["open", h, 4, src, "rwc"])
+            if rng.random() < 0.85:
+                self.emit(["write_at", h, 4, 0, rand_bytes(rng)])
+            if rng.random() < 0.85:
+                self.emit(["sync_all", h, 4])
+            self.emit(["close", h, 4])
+        else:
+            src = rng.choice(files)
+            ino = fs.lookup(src)[1]
+            if ino in dur.dirty and rng.random() < 0.9:
+                for slot, pth in sorted(self.opened[h].items()):
+                    if slot in fs.handles and pth == src:
+                        self.emit(["close", h, slot])
+                self.emit(["open", h, 4, src, "rw"])
+                self.emit(["sync_all", h, 4])
+                self.emit(["close", h, 4])
+        if rng.random() < 0.3:
+            self.emit(["sync_dir", h, parent(src)])
+        cross = [p for p in free if parent(p) != parent(src)]
+        dst = rng.choice(cross) if cross and rng.random() < 0.7 else rng.choice(free)
+        others = [q for q in FILES if fs.kind(q) == "file" and q != src]
+        if others and rng.random() < 0.25:
+            dst = rng.choice(others)          # onto an existing file whose data is synced
+            for slot, pth in sorted(self.opened[h].items()):
+                if slot in fs.handles and pth == dst:
+                    self.emit(["close", h, slot])
+            if fs.lookup(dst)[1] in dur.dirty:
+                self.emit(["open", h, 3, dst, "rw"])
+                self.emit(["sync_all", h, 3])
+                self.emit(["close", h, 3])
+        self.emit(["rename", h, src, dst])
+        r = rng.random()
+        if r < 0.45:
+            self.emit(["sync_dir", h, parent(dst)])
+        elif r < 0.6:
+            self.emit(["sync_dir", h, parent(src)])
+            self.emit(["sync_dir", h, parent(dst)])
+        elif r < 0.7:
+            self.emit(["open", h, 3, dst, "rw"])
+            self.emit(["read_at", h, 3, 0, 8])
+        if rng.random() < 0.5 and self.crash:
+            self.emit(["crash", h])
+            self.emit(["dump", h])
+        elif rng.random() < 0.5:
+            self.emit(["dump", h])
+
     def build(self, nsteps, flavour):
         self.setup()
         for _ in range(nsteps):
@@ -764,8 +901,9 @@ class Gen:
 
 
 def gen_history(rng, level, nsteps=None, nhosts=1, tokio=0.0, syncs=0.25, crash=0.0, setup_sync=None, stale=0.1,
-                sync_prob=0.0, block_size=None, latency=False):
-    g = Gen(rng, level, nhosts=nhosts, tokio=tokio, syncs=syncs, crash=crash, setup_sync=setup_sync, stale=stale)
+                sync_prob=0.0, block_size=None, latency=False, clean_rename=0.0):
+    g = Gen(rng, level, nhosts=nhosts, tokio=tokio, syncs=syncs, crash=crash, setup_sync=setup_sync, stale=stale,
+            clean_rename=clean_rename)
     c = g.build(nsteps or rng.randrange(8, 26), "F%d" % level)
     c["cfg"]["sync_prob"] = sync_prob
     c["cfg"]["block_size"] = block_size
@@ -995,12 +1133,18 @@ class Durable:
         self.dent = {"/": "dir"}     # durable entries: path -> "dir" | inode number
         self.ddata = {}              # inode -> bytes at the last data sync
         self.pend = []               # (inode, off, data): writes since that inode's last data sync
+        self.dirty = set()           # inodes with a write / set_len / truncation since their last data sync
         self.bs = block_size
         self.unspecified = False     # a dangling durable subtree exists: nothing asserted any more
 
     def data_sync(self, ino):
         self.ddata[ino] = bytes(self.fs.data[ino])
         self.pend = [w for w in self.pend if w[0] != ino]
+        self.dirty.discard(ino)
+
+    def persisted(self, ino):
+        """the inode reached the disk at least once: data-synced, or its entry is durable"""
+        return ino in self.ddata or ino in self.dent.values()
 
     def before(self, st):
         """what the step will write, computed before it runs: (ino, off, data) or None"""
@@ -1023,19 +1167,25 @@ class Durable:
         if exp and exp[0] == "err":
             return
         coin = any(d[0] == "coin" and d[1] for d in dec)
+        if name == "open" and "t" in st[4] and "w" in st[4] and fs.h(st[2]) is not None:
+            self.dirty.add(fs.h(st[2])["ino"])
         if name in ("write_at", "write") and wr:
             if wr[2]:
                 self.pend.append((wr[0], wr[1], list(wr[2])))
+                self.dirty.add(wr[0])
             if coin:
                 self.data_sync(wr[0])
         elif name == "spit":
             ino = fs.lookup(st[2])[1]
+            self.dirty.add(ino)
             if st[3]:
                 self.pend.append((ino, 0, list(st[3])))
                 if coin:
                     self.data_sync(ino)
         elif name == "set_len":
             h = fs.h(st[2])
+            if h is not None and h["w"]:
+                self.dirty.add(h["ino"])
             if h is not None and coin:
                 self.data_sync(h["ino"])
         elif name in ("sync_all", "sync_data"):
@@ -1051,6 +1201,11 @@ class Durable:
                 if comps(p)[-1] not in cur:
                     del self.dent[p]
             for nm, node in cur.items():
+                if not isinstance(node, dict):
+                    # a file has one name: making the new name durable is what makes a rename
+                    # durable, the old durable name goes with it
+                    for q in [q for q, e in self.dent.items() if e == node and q != pre + nm]:
+                        del self.dent[q]
                 self.dent[pre + nm] = "dir" if isinstance(node, dict) else node
 
     def crash(self, dec):
@@ -1109,6 +1264,7 @@ class Durable:
         self.dent = {p: e for p, e in self.dent.items() if p == "/" or new.kind(p) is not None}
         self.ddata = {e: bytes(new.data[e]) for e in self.dent.values() if e != "dir"}
         self.pend = []
+        self.dirty = set()
         return problem
 
 
@@ -1149,8 +1305,11 @@ def durable_check(case, obs):
 
 
 # the known-finding classes (known_findings.txt), most specific first
-KNOWN_CLASSES = ["RootOp", "RenameSelf", "StaleHandle", "RenameDir", "RenameFile", "Recreate",
+KNOWN_CLASSES = ["RootOp", "RenameSelf", "StaleHandle", "RenameDir", "RenameFile", "RenameCrossDir", "Recreate",
                  "KindSwap"]
+# what the Coq theorems exclude (FsSafe classes): any successful rename of a regular file, not
+# only the defective ones
+THEOREM_EXCLUDED = ["RootOp", "RenameSelf", "StaleHandle", "RenameDir", "RenameFileAny", "Recreate", "KindSwap"]
 
 
 def known_class(case, obs, step):
@@ -1164,9 +1323,49 @@ def known_class(case, obs, step):
 
 
 def gen_safe(rng, **kw):
-    """A history outside every known class (rejection sampling)."""
+    """A history inside the domain of the Coq theorems: outside every class the
+    theorems exclude (rejection sampling)."""
     while True:
         c = gen_history(rng, 3, **kw)
-        if not (history_features(c) & set(KNOWN_CLASSES)):
+        if not (history_features(c) & set(THEOREM_EXCLUDED)):
             c["flavour"] = c["flavour"].replace("F3", "safe")
             return c
+
+
+def gen_clean_rename(rng, **kw):
+    """A history with at least one rename of a file whose data is synced, outside
+    every known class: the oracle asserts it although the theorems do not cover it."""
+    kw.setdefault("clean_rename", 0.9)
+    while True:
+        c = gen_history(rng, 3, stale=0.0, **kw)
+        f = history_features(c)
+        if "CleanRename" in f and not (f & set(KNOWN_CLASSES)):
+            c["flavour"] = c["flavour"].replace("F3", "clean-rename")
+            return c
+
+
+def rename_scenarios(rng):
+    """Exhaustive small family: a file created in /d (entry of /d/f durable or not, data synced
+    or not), renamed within /d or into /g, then every order of up to two directory syncs,
+    optionally an observation, then a crash and a dump."""
+    import itertools
+    out = []
+    base = [["mkdir", 0, "/d"], ["mkdir", 0, "/g"], ["sync_dir", 0, "/"]]
+    for src_durable, data_synced, dst in itertools.product((False, True), (False, True), ("/d/b", "/g/a", "/b")):
+        for syncs in itertools.product((None, "/d", "/g", "/"), repeat=2):
+            for look in (False, True):
+                st = list(base) + [["open", 0, 1, "/d/a", "rwc"], ["write_at", 0, 1, 0, rand_bytes(rng)]]
+                if data_synced:
+                    st.append(["sync_all", 0, 1])
+                st.append(["close", 0, 1])
+                if src_durable:
+                    st.append(["sync_dir", 0, "/d"])
+                st.append(["rename", 0, "/d/a", dst])
+                for sd in syncs:
+                    if sd:
+                        st.append(["sync_dir", 0, sd])
+                if look:
+                    st.append(["dump", 0])
+                st += [["crash", 0], ["dump", 0]]
+                out.append({"cfg": base_cfg(rng, 1), "steps": st, "flavour": "rename-scenario"})
+    return out
